@@ -195,6 +195,7 @@ def _mk_hash(name, timeout=900):
     route = _route(name)
 
     @symx("C06-hash-%s" % name, timeout=timeout, kind="S", opts={"bv": BV}, stubs=STUBS,
+          tiers=("thorough",) if name in ("chain", "combine") else ("quick", "thorough"),
           functions=F_ALG + ["rich/style.py:Style.%s" % name.replace("add", "__add__")],
           bounds="all argument styles of the route (13-bit masks, colour/bgcolor/link tokens) x all independently built styles z: "
                  "route(args) == z  implies  hash(route(args)) == hash(z), and == is symmetric",
